@@ -87,6 +87,16 @@ class Run:
         if "no tests to run" in out:
             raise v.MachineryError("harness test %s not found in %s" % (runre, pkgdir))
         traces = v.split_traces(v.read_ndjson(outp))
+        if allow_short and 0 < len(traces) <= len(behaviours) and traces[-1] and traces[-1][-1].get("ev") != "Health":
+            # the process died in the middle of a behaviour whose rows are already on disk. The only death
+            # that is taken as an observation is the Go runtime's own race verdict; it is recorded by the
+            # driver because the harness cannot record its own death. Anything else stays a dead driver.
+            if "fatal error: concurrent map" in out:
+                msg = [ln for ln in out.splitlines() if "fatal error: concurrent map" in ln][0]
+                traces[-1].append({"ev": "Health", "races": 1, "leak": False, "deadlock": False, "stuck": 0,
+                                   "panic": msg.strip()})
+                v.log("harness process ended by the runtime (%s) in behaviour %d of %d" % (msg.strip(), len(traces), len(behaviours)))
+                return traces
         if allow_short and 0 < len(traces) < len(behaviours):
             # the harness may end the process on purpose after a behaviour that dead-locks (it cannot be
             # abandoned inside the process); it says so in the Health record that ends the last trace
@@ -196,7 +206,9 @@ class Run:
         cov.update({k: val for k, val in self.extra.items() if k != "nontrivial_counted"})
         if self.traces_validated == 0:
             raise v.MachineryError("no trace of the implementation was validated")
-        if not self.replay:      # a replay run re-checks one schedule; it does not describe a check run
+        # a replay run re-checks one schedule, a run against another tree (VERIF_REPO: seeded change, repair under
+        # test) does not describe /repo: neither rewrites the evidence file
+        if not self.replay and os.path.realpath(v.REPO) == "/repo":
             v.write_evidence(self.prop, self.tier, self.seed, level, cov, wall, len(out),
                              getattr(mod, "ASSUMPTIONS", []))
         for inv, p in out[:20]:
